@@ -2,7 +2,7 @@
 
 TRUSTED_COMMON = [
     'Verus 0.2026.09.13 + Z3 (soundness of the verifier and its vstd specifications of std)',
-    'extraction rules R1..R10 of vx/rules.md (the verified text differs from /repo only by these)',
+    'extraction rules R1..R12 of vx/rules.md (the verified text differs from /repo only by these); R11: the std iterator adaptors find / any / map / filter / collect / sum / fold are their documented defining loops over next()',
     'machine arithmetic: exec integers fixed width with overflow checked as in the debug profile; usize = 64 bit',
 ]
 ASSUMPTIONS_COMMON = [
@@ -43,7 +43,8 @@ PROPS['C02'] = {
                'error causes: <20 bytes Truncated{20,len}; bad top bits/cookie NotStun; declared>available Truncated{declared+20,len}; NotStun/FingerprintMismatch/AttributeAfter* only named truthfully',
                '(unit parsecause: from_bytes extracted a second time with a witness contract) a rejection names its cause: AttributeAfterFingerprint(t) => t is the type of an attribute at a TLV walk position that is preceded by a FINGERPRINT at an earlier walk position; AttributeAfterIntegrity(t) => ... preceded by a MESSAGE-INTEGRITY(-SHA256); FingerprintMismatch => a 4-byte FINGERPRINT at a walk position whose value is not crc32(bytes before it, length field covering it) ^ 0x5354554e',
                'get_type / transaction_id read the RFC fields; MessageAttributesIter::next yields exactly exposed(bytes) with type, length and value bytes of each TLV'],
-    'bounded': ['raw_attribute / has_attribute / attribute (iterator adaptors find/any): BX, and Kani bounded harness k02_lookups_small (thorough tier: three zero-length attributes, all type triples)', 'which of several applicable causes is reported, and the byte counts of interior truncations: BX differential against the reference decoder'],
+    'proved_extra': ['(rule R11) Message::{iter_attributes, raw_attribute, has_attribute, attribute::<A>()}: the lookup answers with the first attribute of the type in the exposed stream (type, declared length, value bytes); typed extraction decodes exactly that attribute and reports MissingAttribute exactly when none is exposed; cross-checked by BX and the Kani bounded harness k02_lookups_small (thorough tier)'],
+    'bounded': ['which of several applicable causes is reported, and the byte counts of interior truncations: BX differential against the reference decoder'],
     'trusted': _PARSE_TRUST,
 }
 PROPS['C17'] = {
@@ -66,7 +67,8 @@ PROPS['C10'] = {
                'lemma_exposed_split / lemma_exposed_after_integrity: every exposed attribute other than MESSAGE-INTEGRITY-SHA256 / FINGERPRINT lies before the end of the first integrity attribute (inside the bytes the checked HMAC covers)',
                'lemma_prefix_stable: two buffers that agree up to the end of the first integrity attribute expose the same attributes before it',
                '(unit integrity) validate_integrity checks an exposed integrity attribute whose HMAC input is the message prefix up to that attribute'],
-    'bounded': ['lookups raw_attribute/has_attribute/attribute go through iterator adaptors: BX'],
+    'bounded': ['BX: iteration and lookups against the exposure rule on all tail orders (cross-check and witness finder)'],
+    'proved_extra': ['(rule R11) the lookups raw_attribute / has_attribute / attribute::<A>() answer from the exposed stream the iterator yields (first attribute of the type): nothing hidden is reachable through them'],
     'trusted': _PARSE_TRUST,
 }
 PROPS['C09'] = {
@@ -77,18 +79,19 @@ PROPS['C09'] = {
     'rule': 'Verus verification conditions of unit parse; fp_ok clause of wf_message.',
     'proved': ['accepted buffer with FINGERPRINT at o: value == crc32(bytes[..o] with length field o+8-20) ^ 0x5354554e (fp_ok inside wf_message), and o+8 == len',
                '(unit builder) builder side: add_fingerprint(_unchecked) appends a FINGERPRINT whose value is Fingerprint::compute of build() with the header length field increased by 8, xor 0x5354554e; theorem_sealed_fingerprint: the serialisation of the sealed builder then satisfies the parser-side fp_ok at that offset and ends there'],
-    'bounded': ['Fingerprint::compute == CRC-32/ISO-HDLC (BX vs bitwise reference, KX bounded)', 'build() == header + TLVs (assumed in unit builder: iterator sum; write_into, which it calls, is proved): BX', 'Fingerprint::to_raw / write_into (bytewise_xor! macro): Kani complete', 'all single-bit flips / bursts / byte substitutions on a corpus (BX)'],
+    'bounded': ['Fingerprint::compute == CRC-32/ISO-HDLC (BX vs bitwise reference, KX bounded)', 'Fingerprint::to_raw / write_into (bytewise_xor! macro): Kani complete', 'all single-bit flips / bursts / byte substitutions on a corpus (BX)'],
     'trusted': _PARSE_TRUST,
 }
 PROPS['C01'] = {
     'level': 'proof',
-    'vx': [{'unit': 'parse'}, {'unit': 'integrity'}, {'unit': 'attrs'}],
+    'vx': [{'unit': 'parse'}, {'unit': 'integrity'}, {'unit': 'attrs'}, {'unit': 'responses', 'functions': ['check_attribute_types', 'comprehension_required', 'iter_attributes']}],
     'bx': ['c01'],
     'rule': 'Verus exec-mode VCs (index, slice, arithmetic overflow, unwrap, unreached, termination) of every extracted decoding function with precondition true on the bytes.',
     'proved': ['(unit attrs) the typed decoders of USERNAME REALM NONCE SOFTWARE ALTERNATE-DOMAIN ERROR-CODE PASSWORD-ALGORITHM(S) PRIORITY USE-CANDIDATE ICE-CONTROLLED ICE-CONTROLLING USERHASH MESSAGE-INTEGRITY(-SHA256) are total on every raw attribute (no index/slice/arith/unwrap failure, loops terminate); the remaining five (FINGERPRINT, XOR-MAPPED-ADDRESS, ALTERNATE-SERVER: Kani complete; UNKNOWN-ATTRIBUTES: BX) are in C08',
                'no panic / overflow / OOB / non-termination for AttributeHeader::parse, RawAttribute::from_bytes, MessageType::from_bytes, MessageHeader::from_bytes, Message::from_bytes, MessageAttributesIter::next for every byte string',
                'Message::validate_integrity on every accepted message and every credentials value: the 16-bit offset arithmetic cannot overflow, slices are in bounds, try_into().unwrap() is on a 20-byte slice, unreachable!() is unreachable, the scan terminates; MessageIntegrity / MessageIntegritySha256 / check_type_and_len decoders total'],
-    'bounded': ['check_attribute_types, Display/Debug, tracing argument expressions: BX only'],
+    'bounded': ['Display/Debug, tracing argument expressions: BX only; check_attribute_types on accepted NON-requests (known finding D8): BX'],
+    'proved_extra': ['(rule R11) lookups raw_attribute / has_attribute / attribute::<A>() and attribute-type policing of accepted requests (check_attribute_types): no panic, overflow, out-of-bounds index or non-termination (units parse, responses)'],
     'trusted': _PARSE_TRUST,
 }
 
@@ -110,7 +113,7 @@ PROPS['C19'] = {
                'TransactionId::from(x) == x mod 2^96 for all u128; header decoder reads the id from bytes 8..20; Message::transaction_id reads bytes 8..20 (Verus)',
                '(Verus, unit builder) MessageType::from_class_method == class bits | method bits of RFC 8489 s5, class()/method() read them back (lemma_type_roundtrip: class_of(from(c, m)) == c, method_of(from(c, m)) == m & 0xfff, top two bits zero) - the same facts Kani checks exhaustively',
                '(Verus, unit builder) MessageBuilder::write_into places the type field in bytes 0..2, the magic cookie in 4..8 and the low 96 bits of the transaction id big-endian in 8..20 ([C19.header]); MessageType::write_into'],
-    'bounded': ['build() (= write_into into a fresh vector; iterator sum): BX', 'generated ids fit in 96 bits: BX sampling (rand is outside every contract; follows from the mask)'],
+    'bounded': ['generated ids fit in 96 bits: BX sampling (rand is outside every contract; follows from the mask)'],
     'trusted': _PARSE_TRUST + _KX_TRUST,
 }
 PROPS['C13'] = {
@@ -125,12 +128,14 @@ PROPS['C13'] = {
     'trusted': _KX_TRUST + ['SocketAddr equality is (ip, port); flowinfo/scope_id of IPv6 socket addresses are not carried by the wire format and are outside the property'],
 }
 PROPS['C16'] = {
-    'level': 'exploration',
+    'level': 'proof',
     'vx': [{'unit': 'responses', 'functions': ['unknown_attributes', 'bad_request', 'builder_error', 'builder_success', ":: builder", ':: class', ':: method', ':: has_class', 'from_class_method', 'to_bits',
                                              'lemma_type_roundtrip', 'lemma_method_idem', 'lemma_literals', 'ErrorCode :: new', 'UnknownAttributes :: new', 'add_attribute', "MessageBuilder<'a> :: into_owned", 'get_type', 'transaction_id', 'theorem_unsealed_builder_parses', 'theorem_builder_wellformed', 'lemma_unsealed_ok', 'lemma_blayout_tail_ok', 'lemma_holds_push', 'lemma_holds_congruent',
                                              'check_attribute_types', 'comprehension_required', 'iter_attributes', 'lemma_unsupported_len', 'lemma_exposed_len']},
-           {'unit': 'parse', 'functions': ['next', 'iter_attributes']}],
-    'kx': ['k16_comprehension_required'],
+           {'unit': 'parse', 'functions': ['next', 'iter_attributes', "Message<'a> :: from_bytes"]},
+           {'unit': 'writers_lists', 'functions': ['ErrorCode :: to_raw', 'UnknownAttributes :: to_raw', 'ErrorCode :: write_into_unchecked', 'UnknownAttributes :: write_into_unchecked', 'ErrorCode :: length', 'UnknownAttributes :: length', 'write_into_data', 'ErrorCode :: get_type', 'UnknownAttributes :: get_type']},
+           {'unit': 'attrs', 'functions': ['Software :: to_raw', 'Software :: length', 'Software :: get_type']}],
+    'kx': ['k16_comprehension_required', 'k16_software_literal'],
     'bx': ['c16'],
     'rule': 'Verus verification conditions of unit responses (policing verdict + response constructors over the builder contracts) and of the iterator in unit parse; Kani complete harness for the classification; BX enumeration as bounded cross-check and witness finder.',
     'proved': ['comprehension_required(t) <=> t < 0x8000 for all 65536 types (Kani, complete)',
@@ -139,7 +144,7 @@ PROPS['C16'] = {
                '(Verus, rule R11: the four iterator chains of Message::check_attribute_types desugared to their defining loops, closures verbatim) the verdict for every accepted request and all supported / required lists of any length: 420 listing exactly unsupported_of(exposed stream) - the exposed types below 0x8000 that are not in `supported`, in message order - if that list is not empty; otherwise 400 if some required type is not exposed; otherwise None; every response has class error, the method and id of the request, no sealing attribute; no panic, overflow or non-termination (the iterator contract is the one proved in unit parse)',
                '(Verus) build() / byte_len() of the response builder are proved (unit builder), so with theorem_unsealed_builder_parses the response bytes satisfy wf_message, for which Message::from_bytes is proved to answer Ok'],
     'bounded': ['BX against an RFC 8489 s6.3.1 oracle, end to end through build() and the parser (cross-check and witness finder)',
-                'Software::new (str::len has no usable vstd specification): assumed in VX, BX'],
+                'Software::new for texts other than the literal "stun-types" (str::len has no usable vstd specification): BX (C08)'],
     'trusted': _KX_TRUST + ['mirror impls of AttributeWrite for Software / ErrorCode / UnknownAttributes in unit builder (value functions as proved in units writers / attrs)', 'smallvec::smallvec![] stand-in (empty list)'],
 }
 PROPS['C08'] = {
@@ -171,7 +176,8 @@ PROPS['C12'] = {
                '(Verus, unit builder, attribute lists of ANY length) MessageBuilder::write_into: a destination shorter than byte_len() => Err(TooSmall{expected: byte_len, actual}) and nothing written; an exact or larger one receives header + TLVs, the length is reported and nothing beyond it is touched',
                '(Verus, unit writers / attrs) to_raw() of ERROR-CODE, UNKNOWN-ATTRIBUTES, PASSWORD-ALGORITHMS (lists of any length; RawAttribute::new_owned) and of the five string types has the same type and exactly the value bytes of the in-place writer - with RawAttribute::to_bytes == tlv_bytes this is "writing in place and converting to raw and serialising give the same bytes" for 8 variable-length types + raw; the fixed-size types by Kani',
                '(Verus, unit builder) borrowed -> owned: Data::into_owned, DataSlice::to_owned, RawAttribute::into_owned keep header and value bytes; AttrOrRaw::into_owned turns a typed attribute into a raw one of the same type and value (over the to_raw contract); MessageBuilder::into_owned (into_iter().map().collect(), specified by vstd) keeps header fields and, element by element in order, type and value bytes; lemma_layout_congruent / theorem_same_contents_same_bytes: such a builder has the same layout and the same bytes() - so write_into after into_owned() writes identical bytes'],
-    'bounded': ['MessageBuilder::clone() (derived; Verus gives derived Clone of non-Copy types no specification): BX', 'MessageBuilder build() == write_into() bytes, byte_len (iterator sum; assumed in VX), into_owned/clone (dyn AttributeWrite -> to_raw): BX'],
+    'proved_extra': ['(rule R11) MessageBuilder::build() == the bytes write_into() writes, byte_len() == their length (iterator map/sum replaced by its defining loop; precondition: the total size fits the machine word)'],
+    'bounded': ['MessageBuilder::clone() (derived; Verus gives derived Clone of non-Copy types no specification): BX', 'clone (dyn AttributeWrite -> to_raw): BX'],
     'trusted': _KX_TRUST,
 }
 
@@ -267,7 +273,7 @@ PROPS['C03'] = {
                '(unit builder) theorem_builder_wellformed / theorem_unsealed_builder_parses / theorem_fingerprinted_builder_parses: the bytes that write_into is proved to write for a builder whose list obeys the ordering rules (in particular: any list of non-sealing attributes, and such a list sealed by add_fingerprint) satisfy wf_message - the predicate for which Message::from_bytes is proved Ok <==> wf_message in unit parse - with length a multiple of four, header length field = length - 20, and the type and transaction id in the header',
                '(unit builder) [C03.sequence] theorem_guarded_builder_exposes_all + lemma_offsets_describe: for every builder obeying the grammar that the guarded operations are proved to preserve (ord()), the exposed attribute stream of its bytes - which MessageAttributesIter::next is proved to yield (unit parse) - consists of exactly the attributes of the builder in order, the k-th exposed TLV carrying the type and the value bytes of the k-th attribute, the sealing attributes included',
                '(in C02/C10) the parser accepts exactly the well-formed buffers and exposes them faithfully - so "parses back identically" reduces to "the builder concatenates header and attribute TLVs as specified" (now proved for write_into) plus the sealing values'],
-    'bounded': ['byte_len (iterator map/sum) == 20 + padded TLV sizes and build() == header + TLVs: assumed in VX; BX compares them with the independent serialiser, Kani k03_build_small (thorough tier) checks them on builders of two raw attributes with symbolic types / 0..=4 symbolic value bytes / all ids',
+    'bounded': ['(byte_len and build() are PROVED since rule R11) BX compares them with the independent serialiser, Kani k03_build_small (thorough tier) checks them on builders of two raw attributes with symbolic types / 0..=4 symbolic value bytes / all ids',
                 'build() (vec![0; byte_len] then write_into; iterator sum): assumed == header + TLVs in VX; MessageBuilder::clone: BX random builder programs',
                 'typed value equality after the round trip for UNKNOWN-ATTRIBUTES (decoder uses chunks_exact) and constructors: BX'],
     'trusted': _BX_TRUST + ['AttributeWriteExt::write_into on dyn AttributeWrite / RawAttribute: assumed in unit builder with the contract proved in unit writers (same text); be_write_u128_at_slice / be_write_u16_slice shims (KX k_shim_u128)'],
@@ -286,13 +292,13 @@ PROPS['C11'] = {
                '(unit builder) add_fingerprint: refused <==> FINGERPRINT present; refused => builder unchanged',
                '(unit builder) [C11.order] Message::builder starts with, and add_attribute / add_raw_attribute / add_message_integrity / add_fingerprint (and their workers) preserve, the ordering grammar `ord()` of the attribute list (only sealing attributes after an integrity attribute, nothing after FINGERPRINT, no repeated sealing attribute, values within the 16-bit field); theorem_guarded_builder_parses: a builder with `ord()` whose FINGERPRINT (if any) has the value add_fingerprint appends serialises (write_into, proved) to bytes satisfying wf_message, i.e. the parser (unit parse: Ok <==> wf_message) accepts it',
                'the documented panics of add_attribute/add_raw_attribute (integrity/fingerprint types passed directly) are preconditions; under them the panic!/unreachable arms are proved unreachable'],
-    'bounded': ['has_attribute / has_any_attribute (iterator adaptors any/find over SmallVec): assumed contracts in VX (contains / first element among the given types), exercised by BX on every builder state (C11:query-vs-serialisation) and checked by Kani on builders of three symbolic types (k11_builder_queries_small, thorough tier, bounded)',
+    'bounded': ['(has_attribute / has_any_attribute are PROVED since rule R11: contains / first element of the list among the given types, over the smallvec stand-in whose Deref yields its elements) also exercised by BX on every builder state (C11:query-vs-serialisation) and checked by Kani on builders of three symbolic types (k11_builder_queries_small, thorough tier, bounded)',
                 'whole-sequence behaviour: BX, exhaustive for sequences up to length 5 (quick) / 6 (thorough) over {typed, raw, SHA-1, SHA-256, fingerprint}, random programs up to length 7 with into_owned/clone/duplicates'],
     'trusted': _BX_TRUST + ['smallvec::SmallVec stand-in (push appends; clone preserves the sequence)', 'mirror of trait AttributeWrite without its supertrait (get_type only)'],
 }
 PROPS['C04'] = {
     'level': 'proof',
-    'vx': [{'unit': 'integrity'}, {'unit': 'parse', 'functions': ["Message<'a> :: from_bytes", 'next']},
+    'vx': [{'unit': 'integrity'}, {'unit': 'parse', 'functions': ["Message<'a> :: from_bytes", 'next', 'iter_attributes', 'raw_attribute']},
            {'unit': 'builder', 'functions': ['add_message_integrity', 'add_message_integrity_unchecked', 'integrity_bytes_from_message', 'theorem_sealed_sha1', 'theorem_sealed_sha256', 'theorem_sealed_message_validates', 'lemma_first_exposed_then', 'lemma_layout_head', 'lemma_last_tlv', 'MessageIntegrity :: new', 'MessageIntegritySha256 :: new']}],
     'bx': ['c04'],
     'rule': 'see engines.bx[0].rule',
@@ -300,7 +306,7 @@ PROPS['C04'] = {
                'MessageIntegrity / MessageIntegritySha256 decoders accept exactly (type, length) per RFC and expose the value bytes',
                '(unit parse) every accepted buffer is tiled by TLVs and the iterator exposes the integrity attributes per the C10 rule',
                '(unit builder) builder side: add_message_integrity(_unchecked) appends MESSAGE-INTEGRITY = HMAC-SHA1(key, build() with the length field +24) resp. MESSAGE-INTEGRITY-SHA256 = HMAC-SHA256(key, build() with the length field +36), key = make_hmac_key(credentials); theorem_sealed_sha1/sha256: the serialisation of the sealed builder satisfies exactly the predicate (mi_correct / mi256_correct) under which validate_integrity is proved to answer Ok; theorem_sealed_message_validates: for a builder of non-sealing attributes sealed once, the appended attribute is the FIRST EXPOSED integrity attribute of the serialised message (and no MESSAGE-INTEGRITY-SHA256 is exposed in the SHA-1 case) - together the premises of clauses [C04.sha1] / [C04.sha256] of validate_integrity, i.e. the message a builder seals validates under the same credentials'],
-    'bounded': ['raw_attribute (iterator adaptor find) returns the first exposed attribute of the type: assumed in VX, checked by BX (C02:lookup-first-match)',
+    'bounded': ['(raw_attribute: its contract is assumed in unit integrity and PROVED in unit parse - same text, units/_raw_attribute_contract.vrs; unit parse is run for this property)',
                 'key derivation make_hmac_key (password / MD5(user:realm:password)), agreement of the hmac/sha crates with RFC 2104, tamper evidence on concrete messages, build() == header + TLVs (assumed in unit builder): BX against independent HMAC-SHA1/SHA256/MD5'],
     'trusted': _BX_TRUST + ['hmac / sha1 / sha2 / md-5 crates (their agreement with the independent implementations is checked on every BX case, not proved)'],
 }
@@ -310,24 +316,24 @@ for _p in ('C01', 'C02', 'C05', 'C06', 'C07', 'C08', 'C09', 'C10', 'C12', 'C13',
 
 LEVEL_TEXT = {
  'C01': "Proof: Verus discharges every index/slice/arithmetic/unwrap/unreachable/termination obligation of the decoding entry points (whole message, header, type, raw attribute, 14 typed decoders, iterator, validate_integrity) for ALL byte strings, with precondition `true` on the bytes (representation invariant wf_message for methods on an accepted message); Kani covers the remaining 5 typed decoders completely. Formatting, policing and tracing-subscriber clauses are outside both verifiers and are run by the bounded stand-in (catch_unwind + watchdog), listed as bounded. One known finding (D8) is reported as KNOWN-FINDING.",
- 'C02': "Proof: `Message::from_bytes` is verified `Ok <==> wf_message(bytes)` for buffers of every length against a recursive spec predicate written from the statement (not from the code); header fields, the exposed attribute stream (iterator) and the header/declared-length error cases are postconditions; each interior rejection (attribute after integrity / after fingerprint with its type, fingerprint mismatch) is proved to point at a real witness in the buffer (unit parsecause). Lookups through iterator adaptors, and which of several applicable causes is reported, are decided by the bounded differential against an independent reference decoder.",
- 'C03': "Exploration: the builder side is under Verus contracts - write_into writes header + padded TLVs in order for lists of any length (per-attribute writers proved under C12), every guarded operation keeps the ordering grammar, the sealing workers append the CRC / HMAC of build() with the adjusted length field - and the composition theorems show that these bytes satisfy wf_message (so the verified parser accepts them), have the stated length properties, and expose exactly the builder's attributes in order with their types and value bytes. What remains assumed or bounded: byte_len / build (iterator sums; build = zeroed vector + the proved write_into), the builder query helpers (iterator any/find), the crypto crates, clone(), and typed-value equality where a decoder is outside the verifier (UNKNOWN-ATTRIBUTES) - decided by random builder programs against an independent serialiser with independent HMAC/CRC; hence exploration.",
+ 'C02': "Proof: `Message::from_bytes` is verified `Ok <==> wf_message(bytes)` for buffers of every length against a recursive spec predicate written from the statement (not from the code); header fields, the exposed attribute stream (iterator) and the header/declared-length error cases are postconditions; each interior rejection (attribute after integrity / after fingerprint with its type, fingerprint mismatch) is proved to point at a real witness in the buffer (unit parsecause). The lookups raw_attribute / has_attribute / attribute::<A>() are proved as well (rule R11 replaces the iterator adaptors find / any by their defining loops, the closures of the real code verbatim): they answer with the first attribute of the type in the exposed stream. Which of several applicable causes is reported is decided by the bounded differential against an independent reference decoder.",
+ 'C03': "Exploration: the builder side is under Verus contracts - write_into writes header + padded TLVs in order for lists of any length (per-attribute writers proved under C12), every guarded operation keeps the ordering grammar, the sealing workers append the CRC / HMAC of build() with the adjusted length field - and the composition theorems show that these bytes satisfy wf_message (so the verified parser accepts them), have the stated length properties, and expose exactly the builder's attributes in order with their types and value bytes. byte_len / build (iterator map/sum) and the builder query helpers (iterator any/find) are proved too since rule R11 (adaptor chains replaced by their defining loops). What remains assumed or bounded: the crypto crates, clone(), and typed-value equality where a decoder is outside the verifier (UNKNOWN-ATTRIBUTES) - decided by random builder programs against an independent serialiser with independent HMAC/CRC; hence exploration.",
  'C04': "Proof: `Message::validate_integrity` is verified for every accepted message and every credential against the RFC 8489 s14.5/14.6 specification (which exposed attribute is checked, HMAC input = prefix with the length field set to the end of that attribute, truncated SHA-256 lengths, MissingAttribute) with HMAC/MD5 as uninterpreted functions; the builder side (add_message_integrity appends the HMAC of build() with the adjusted length field; the sealed message meets exactly the premises of validate_integrity's Ok clauses) is proved as well. That the hmac/sha crates compute those functions, the key derivation (String concatenation: outside the verifier) and tamper-evidence on concrete messages are bounded (independent HMAC-SHA1/SHA256/MD5 implementation).",
  'C05': "Exploration: whole-view postconditions of send / handle_stun / take_outstanding_request / request_transaction / cancel / StunRequestState::poll and the exactly-once theorem over them are proved by Verus; the one link that is not (StunAgent::poll's `values_mut` loop, which turns a per-request verdict into removal) is decided by the bounded stand-in stepping the real agent against an abstract agent - so the property as a whole is claimed at exploration.",
  'C06': "Exploration: the per-request schedule (StunRequestState::new defaults and poll for schedules of any length and all instants) is proved by Verus; configure_timeout (iterator map/fold over Duration) and the agent-level minimum over transactions are bounded (exhaustive configuration grid driven by on-time polls, random histories with early/exact/late polls at microsecond resolution).",
  'C07': "Proof: handle_stun's postcondition (delivered => outstanding and, if the request was sealed, remote credentials set and validate_integrity Ok; otherwise Drop with the whole abstract state unchanged) and request_had_credentials <=> builder has an integrity attribute are verified by Verus for all inputs; validate_integrity itself is C04. End-to-end with real HMACs is bounded.",
  'C08': "Exploration: decode side proved - 14 typed decoders in Verus for value strings of ANY length (UTF-8 via vstd::utf8), 5 in Kani (complete); encode side proved for to_raw/length of the string types and the in-place writers of 15 types (C12). Still bounded only: UNKNOWN-ATTRIBUTES decoder (chunks_exact: no vstd specification, and the ghost-iterator traits cannot be implemented for a std type from outside vstd), the &str constructors - hence exploration.",
- 'C09': "Proof: an accepted buffer with a FINGERPRINT at offset o satisfies value == crc32(bytes[..o] with length field o+8-20) ^ 0x5354554e and o+8 == len (clause fp_ok of wf_message, verified for all buffers); XOR constant by Kani for all 2^32 values; the builder side (add_fingerprint appends crc32 of build() with the length field + 8, xor the constant; the sealed serialisation satisfies fp_ok and is accepted by the parser) is proved over the assumed contract of build(). That Fingerprint::compute is CRC-32/ISO-HDLC and the corruption sweeps are bounded.",
- 'C10': "Proof: the iterator is verified to yield exactly the exposure rule of the statement on every accepted message; the 'hence' clauses (non-sealing exposed attributes lie before the end of the first integrity attribute; prefix stability) are spec-level lemmas; validate_integrity checks an exposed attribute over that prefix (C04). Lookups through `find`/`any` are bounded.",
- 'C11': "Exploration: the four guard functions of the real MessageBuilder are verified by Verus against the ordering rules of the statement (refused exactly when ..., refused => builder unchanged, accepted => appended), but over ASSUMED contracts for the two iterator-adaptor query helpers has_attribute / has_any_attribute (and, for the sealing values, build() and the hmac/crc crates); those assumptions and the whole-sequence statement are also decided by exhaustive operation sequences up to length 5/6 over the sealing alphabet plus random programs on the real builder - hence exploration. That every guarded operation keeps the ordering grammar, and that a builder obeying it serialises to a message the parser accepts, is proved (ord(), theorem_guarded_builder_parses).",
- 'C12': "Exploration: for raw attributes and 15 typed attributes the in-place writer, the size guard of write_into and to_bytes are proved equal to the RFC TLV layout for values of any length (Verus), 4 more types by Kani; MessageBuilder::write_into's guard / exact-or-larger / nothing-beyond clauses are proved for attribute lists of any length (Verus). build() vs write_into (iterator sum; vstd has no specification of Iterator::sum and none can be added for a provided trait method) and clone() are bounded - hence exploration.",
+ 'C09': "Proof: an accepted buffer with a FINGERPRINT at offset o satisfies value == crc32(bytes[..o] with length field o+8-20) ^ 0x5354554e and o+8 == len (clause fp_ok of wf_message, verified for all buffers); XOR constant by Kani for all 2^32 values; the builder side (add_fingerprint appends crc32 of build() with the length field + 8, xor the constant; the sealed serialisation satisfies fp_ok and is accepted by the parser) is proved, build() included (rule R11). That Fingerprint::compute is CRC-32/ISO-HDLC and the corruption sweeps are bounded.",
+ 'C10': "Proof: the iterator is verified to yield exactly the exposure rule of the statement on every accepted message; the 'hence' clauses (non-sealing exposed attributes lie before the end of the first integrity attribute; prefix stability) are spec-level lemmas; validate_integrity checks an exposed attribute over that prefix (C04). The lookups raw_attribute / has_attribute / attribute::<A>() are proved to answer from that same exposed stream (rule R11: find / any replaced by their defining loops), so nothing hidden is reachable through them either.",
+ 'C11': "Exploration: the four guard functions of the real MessageBuilder are verified by Verus against the ordering rules of the statement (refused exactly when ..., refused => builder unchanged, accepted => appended), including the two query helpers has_attribute / has_any_attribute and build() (iterator adaptors replaced by their defining loops, rule R11); assumed: the hmac/crc crates and the smallvec stand-in. clone() (derived; Verus gives a derived Clone of a non-Copy type no specification) and the whole-sequence statement are decided by exhaustive operation sequences up to length 5/6 over the sealing alphabet plus random programs on the real builder - hence exploration. That every guarded operation keeps the ordering grammar, and that a builder obeying it serialises to a message the parser accepts, is proved (ord(), theorem_guarded_builder_parses).",
+ 'C12': "Exploration: for raw attributes and 15 typed attributes the in-place writer, the size guard of write_into and to_bytes are proved equal to the RFC TLV layout for values of any length (Verus), 4 more types by Kani; MessageBuilder::write_into's guard / exact-or-larger / nothing-beyond clauses are proved for attribute lists of any length (Verus). build() == write_into() bytes and byte_len() are proved as well (rule R11 replaces the iterator map/sum by its defining loop). clone() (derived; no Verus specification for a derived Clone of a non-Copy type) is bounded - hence exploration.",
  'C13': "Proof: complete Kani harnesses over all IPv4/IPv6 addresses x ports x transaction ids (fixed trip-count loops unwound with assertions): round trip, RFC wire bytes, other transaction id.",
  'C14': "Proof: push_data/pull_data/take verified against the abstract pull step; the stream-level statement (any frame list, any chunking, any interleaving) is theorem_history, an induction over those contracts (unique decoding of the length-prefixed stream).",
  'C15': "Proof: whole-set postconditions on validated_peers for every operation in Verus and theorem_peers (monotone; validated exactly by an Incoming/Deliver event from that address). StunAgent::poll never names the set (bounded confirmation).",
- 'C16': "Exploration: comprehension_required is proved for all 65536 types (Kani) and the response constructors (bad_request, unknown_attributes, builder_error: class error, the request's method and id, SOFTWARE + ERROR-CODE 400/420 + the listed types) are proved by Verus; the verdict itself - which response check_attribute_types chooses and which types it lists - is computed with iterator adaptors (map/filter/any) outside the verifier and is decided by bounded enumeration against an RFC 8489 s6.3.1 oracle - hence exploration.",
+ 'C16': "Proof: comprehension_required is proved for all 65536 types (Verus and Kani); Message::check_attribute_types is verified for every accepted request and supported / required lists of any length against the statement's verdict (420 listing exactly the exposed unsupported comprehension-required types in message order, else 400 if a required type is not exposed, else nothing) - its four iterator chains (map/filter/collect, any, nested any) are replaced by their defining loops (rule R11), closures verbatim; the response constructors (class error, the request's method and id, ERROR-CODE 400/420, the listed types), the attribute writers / raw conversions of SOFTWARE, ERROR-CODE and UNKNOWN-ATTRIBUTES (units attrs, writers_lists), into_owned, build() and the theorem that an unsealed builder's bytes satisfy wf_message - for which the parser is proved to answer Ok - close 'parses back'. Software::new is checked by Kani on the one literal used. Bounded enumeration against an RFC 8489 s6.3.1 oracle remains as cross-check and witness finder.",
  'C17': "Proof: the [C17.short]/[C17.exact] clauses of from_bytes, the header decoder's contract and lemma_prefix_truncated give the statement for every well-formed message and every cut point, no bound.",
  'C18': "Exploration: bytes captured once (new), SendData carries them with the same 5-tuple (request poll), send returns the unmodified serialisation, peer_address - all Verus; forwarding through StunAgent::poll is bounded.",
- 'C19': "Proof: complete Kani harnesses over all 4x4096 (class, method) pairs, all 65536 field values and all u128 ids; Verus for Message::{get_type,transaction_id} and the header decoder. Header writer placement (builder) and generated ids are bounded.",
+ 'C19': "Proof: complete Kani harnesses over all 4x4096 (class, method) pairs, all 65536 field values and all u128 ids; Verus for Message::{get_type,transaction_id} and the header decoder. Header writer placement is proved (MessageBuilder::write_into / build, unit builder); generated ids are bounded (rand).",
  'C20': "Exploration: every extracted agent function is verified in a closed world against contracts over (state, arguments) only (an ambient source would be an unsupported call and is reported for this property); shift invariance of the request poll contract; whole-agent shifted replay in another instance / thread is bounded.",
 }
 for _p, _t in LEVEL_TEXT.items():
